@@ -217,18 +217,48 @@ PRESAVE_KINDS = {"cell", "pattr", "pclear", "pbulk", "praw", "elem", "fill", "mc
                  "sm_sample", "sm_effect", "sm_vibrato", "sv_harmonic", "mmud"}
 
 
-def check_edit(src, data, mi, e, presave=False):
+NON_PAYLOAD = {"ctl", "attr", "flag", "vis", "cmid", "opt", "unit", "ip_cmid", "ip_opt"}
+
+
+def payload_edits(mod, seed, first_only=False):
+    """The edits of a module's type-specific payload; first_only: one representative per (kind, target)."""
+    out, seen = [], set()
+    for e in edits_for_module(mod, seed):
+        if e["k"] in NON_PAYLOAD:
+            continue
+        g = (e["k"], e.get("p"), e.get("e"), e.get("n") if e["k"] != "map1" else None)
+        if first_only and g in seen:
+            continue
+        seen.add(g)
+        out.append(e)
+    return out
+
+
+def check_edit(src, data, mi, e, presave=False, pre=None):
     """Returns (status, violations).  With presave the loaded object is saved once (and cloned) BEFORE the edit:
-    whatever a save leaves behind (a cache of packed bytes, ...) must not make the next save ignore the edit."""
+    whatever a save leaves behind (a cache of packed bytes, ...) must not make the next save ignore the edit.
+    pre: an EARLIER edit of the same module (an order of two edits: e.g. a whole table is replaced, then one entry
+    is changed through another accessor); the oracles then speak about the second edit."""
     case = {"src": src, "module": mi, "edit": e, "presave": presave}
+    if pre:
+        case["pre"] = pre
     ek = e["k"] + ":" + str(e.get("n") or e.get("p") or e.get("e") or "")
     # s0 is observed on a SEPARATE load of the same bytes: the object that is edited must not have been
     # touched by the harness before the edit (an observation could e.g. trigger a lazy decode)
-    s0 = S.snapshot(C.load_bytes(data))
+    o0 = C.load_bytes(data)
     obj = C.load_bytes(data)
+    if pre:
+        try:
+            apply_edit(o0, mi, pre)
+            apply_edit(obj, mi, pre)
+        except Exception as ex:
+            return "rejected:" + type(ex).__name__, []
+    s0 = S.snapshot(o0)
     mtype = (obj.modules[mi].mtype if mi is not None else getattr(getattr(obj, "module", None), "mtype", None)) \
         if e["k"] not in PROJECT_LEVEL else "Project"
     key = {"type": mtype, "edit": ek, "presave": presave} if presave else {"type": mtype, "edit": ek}
+    if pre:
+        key["after"] = pre["k"] + ":" + str(pre.get("n") or pre.get("p") or pre.get("e") or "")
     if presave:
         obj.read()
         obj.clone()
@@ -238,6 +268,9 @@ def check_edit(src, data, mi, e, presave=False):
         return "rejected:" + type(ex).__name__, []
     s1 = S.snapshot(obj)
     d01 = S.diff(s0, s1, limit=60)
+    bad = postcondition(e, s1, mi)
+    if bad:
+        return "ok", [C.viol("edit-not-applied-as-requested", dict(key, what=bad[0]), {"edit": e, "observed": bad[1]}, case)]
     if not d01:
         # (2) an edit whose new value differs from what the loaded object held must be visible in the object
         why = should_be_visible(e, s0, mi)
@@ -292,6 +325,30 @@ def check_edit(src, data, mi, e, presave=False):
         vs.append(C.viol("edit-not-saved", dict(key, path=S.generic_path(d[0][0]), stale_replay=bool(stale)),
                          {"diff": S.diff_text(d)}, case))
     return "ok", vs
+
+
+def postcondition(e, s1, mi):
+    """For edits whose requested value is explicit: the edited object must now hold exactly that value (observed in
+    the canonical snapshot, i.e. where the writer reads it).  Returns (what, observed) or None."""
+    k = e["k"]
+    try:
+        if k in PROJECT_LEVEL:
+            return None
+        m = s1["modules"][mi] if mi is not None else s1.get("module")
+        pl = m["payload"]
+        if k == "sv_harmonic":
+            i = e["i"]
+            got = (pl["harmonic_freqs"][i], pl["harmonic_volumes"][i], pl["harmonic_widths"][i])
+            return ("harmonic", list(got)) if got != (2000, 100, 9) else None
+        if k in ("elem", "ip_elem") and isinstance(e.get("v"), int) and not isinstance(e.get("v"), bool):
+            got = pl[e["p"]][e["i"]]
+            return ("array-element", got) if got != e["v"] else None
+        if k == "map1":
+            got = pl["note_samples"][e["i"]]
+            return ("note-map", got) if got != e["v"] else None
+    except (KeyError, IndexError, TypeError):
+        return None
+    return None
 
 
 def should_be_visible(e, s0, mi):
@@ -349,7 +406,7 @@ def sources(ctx):
 
 def run_case(case):
     data = source_bytes(case["src"])
-    return check_edit(case["src"], data, case["module"], case["edit"], case.get("presave", False))[1]
+    return check_edit(case["src"], data, case["module"], case["edit"], case.get("presave", False), case.get("pre"))[1]
 
 
 def _task(t):
@@ -358,6 +415,20 @@ def _task(t):
     data = source_bytes(src)
     obj = C.load_bytes(data)
     work = []
+    if mi_sel == "pairs":
+        mi, mod = modules_of(obj)[0]
+        firsts = payload_edits(mod, seed, first_only=True)
+        alls = payload_edits(mod, seed)
+        for e0 in firsts[lo:hi]:
+            for e in alls:
+                st, vs = check_edit(src, data, mi, e, pre=e0)
+                r["evals"] += 1
+                C.count(r, "pair-" + st.split(":")[0])
+                if len(r["violations"]) < 30:
+                    r["violations"] += vs
+        if firsts[lo:hi]:
+            r["sample"] = {"src": src, "module": mi, "edit": alls[-1], "pre": firsts[lo:hi][-1]}
+        return r
     if mi_sel == "project":
         work = [(None, e) for e in project_edits(obj)]
     else:
@@ -400,6 +471,11 @@ def run(ctx):
             n = len(edits_for_module(mod, ctx.seed))
             for lo in range(0, n, 80):
                 tasks.append((src, ctx.seed, mi, lo, min(n, lo + 80)))
+        if src.get("ctx") == "synth" and "type" in src:
+            # ordered PAIRS of payload edits on one module (k = 2 within the type-specific payload)
+            nf = len(payload_edits(modules_of(obj)[0][1], ctx.seed, first_only=True))
+            for lo in range(0, nf, 4):
+                tasks.append((src, ctx.seed, "pairs", lo, min(nf, lo + 4)))
     from rvmc.runner import rotate
 
     agg = C.Agg()
@@ -414,5 +490,6 @@ def run(ctx):
         "exhaustive": True,
         "sources": nsrc, "edits_repeated_after_a_save": agg.counters.get("presave", 0), "edits_without_effect": agg.counters.get("no-change", 0),
         "edits_rejected_by_api": agg.counters.get("rejected", 0),
+        "ordered_pairs_of_payload_edits": agg.counters.get("pair-ok", 0) + agg.counters.get("pair-no-change", 0),
         "samples": agg.samples,
     }
